@@ -165,6 +165,13 @@ def _sample_goals(ctx, rng, py, consts):
         F = np.fft.fftn(data, norm=consts["norm"]) if consts["norm"] else np.fft.fftn(data)
         absf = np.abs(F.flat[consts["drop_first"]:])
         sumsq = float(np.dot(data.ravel(), data.ravel()))
+        nmodel = data.size - consts["drop_first"]
+        if len(sf) != nmodel or len(k) != data.size - consts["drop_first_k"]:
+            # the goals cannot even be stated: the returned arrays do not have the model's length
+            ctx.obligations += 1
+            ctx.broken.append(f"sample goals: get_structure_factor returns arrays of lengths {len(k)}, {len(sf)} where the model "
+                              f"has {data.size - consts['drop_first_k']}, {nmodel} on {json.dumps(sc.canon(c))[:200]}")
+            continue
         for j in sorted({0, len(sf) // 2, len(sf) - 1}):
             goals.append((f"sf_norm@{c['shape']}[{j}]", f"sf_norm {vlib.rlit(float(absf[j]))} {vlib.rlit(sumsq)}",
                           float(sf[j]), 1e-12 * abs(float(sf[j])) + 1e-300))
@@ -183,6 +190,8 @@ def _sample_goals(ctx, rng, py, consts):
         v = float(py["sf_auto_smoothing"](k_max=kmax))
         goals.append((f"sf_auto_smoothing({kmax})", f"sf_auto_smoothing {vlib.rlit(kmax)}", v, 1e-13 * abs(v)))
         ctx.case(["sample-goals", sc.canon(c)])
+    if not goals:
+        return
     ctx.sample({"goal": f"Rabs ({goals[0][1]} - {vlib.rlit(goals[0][2])}) <= tol", "impl_value": goals[0][2]})
     sc.sample_goal_shards(ctx, "c16", goals,
                           ["sf_norm", "k_mag_of", "rsum", "fold_right", "fftfreq_d", "sf_auto_k_min", "sf_auto_smoothing", "INR"])
@@ -206,20 +215,26 @@ def _fftfreq_cases(ctx):
 def check(ctx: vlib.Ctx) -> int:
     sc.quiet()
     rng = random.Random(ctx.seed)
-    ok = vlib.prove(ctx, ["Proofs/C16.vo", "Proofs/SpectrumDFTSmall.vo", "Model/Samples.vo"], gens=["Gen_spectrum"])
-    ctx.tie.append("translator (Gen_spectrum regenerated from /repo: norm keyword, .flat slices, normalisation, "
-                   "wave-number lines, control flow of get_structure_factor) + correspondence on get_structure_factor")
-    py, consts = sc.load_models(ctx)
-    gen_ok = sc.translator_ok(ctx) and py is not None
+    ok, fresh = vlib.prove_with_fallback(ctx, ["Proofs/C16.vo", "Proofs/SpectrumDFTSmall.vo", "Model/Samples.vo"],
+                                         gens=["Gen_spectrum"])
+    fell_back = bool(ctx.extra.get("translator_fell_back"))
+    ctx.tie.append(("translator (Gen_spectrum regenerated from the current source: norm keyword, .flat slices, normalisation, "
+                    "wave-number lines, control flow of get_structure_factor), validated by interval sample goals and the "
+                    "correspondence on get_structure_factor") if fresh else
+                   ("correspondence on get_structure_factor (implementation vs the GOLDEN model of Gen_spectrum: interval "
+                    "sample goals inside Coq against implementation values, raw spectrum / wave numbers / control flow "
+                    "compared per case)"))
+    py, consts = sc.load_models(ctx, fresh)
+    gen_ok = py is not None
     if not gen_ok:
-        ctx.broken.append("translator: Gen_spectrum could not be generated from the current image_analysis.py")
+        ctx.broken.append("model of Gen_spectrum unavailable on the Python side: " + "; ".join(ctx.notes[-1:]))
     if gen_ok and ok:
         _sample_goals(ctx, rng, py, consts)
         _fftfreq_cases(ctx)
     # --- correspondence, oracle-spec and property oracle on generated fields
     n = ctx.scale(120, 1200)
-    if ctx.broken:
-        n = max(n, 200)  # search for a failing input
+    if ctx.broken or fell_back:
+        n = max(n, 200)  # search for a failing input / full-strength correspondence against the golden model
     failures = []
     corr_bad = []
     spec_bad = {}
@@ -248,8 +263,13 @@ def check(ctx: vlib.Ctx) -> int:
         ctx.broken.append(f"oracle-spec:{'fftn' if name not in ('fftfreq', 'linspace') else name} premise {name} fails "
                           f"on {json.dumps(c)[:300]}")
     if corr_bad:
-        ctx.broken.append(f"correspondence get_structure_factor: generated model and implementation differ "
-                          f"({corr_bad[0][0]}) on {json.dumps(corr_bad[0][1])[:300]} (+{len(corr_bad) - 1} more)")
+        ctx.broken.append(f"correspondence get_structure_factor: {'generated' if fresh else 'golden'} model and "
+                          f"implementation differ ({corr_bad[0][0]}) on {json.dumps(corr_bad[0][1])[:300]} "
+                          f"(+{len(corr_bad) - 1} more)")
+        if fell_back:  # the correspondence is the tie: its disagreement is the violation, with that input
+            b, c0 = min(corr_bad, key=lambda bc: int(np.prod(bc[1]["shape"])))
+            ctx.violations.append({"what": f"get_structure_factor differs from the golden model ({b})", "input": c0,
+                                   "found": True, "broken": ctx.broken[:3]})
     # report the smallest failing inputs, one per kind of failure
     seen = set()
     for f in sorted(failures, key=lambda f: int(np.prod(f["input"]["shape"]))):
